@@ -618,6 +618,9 @@ impl Dup for VirtualSystem {
     fn dup(&self, from: Fd, to_min: Fd, flags: EnumSet<FdFlag>) -> Result<Fd> {
         let mut process = self.current_process_mut();
         let mut body = process.fds.get(&from).ok_or(Errno::EBADF)?.clone();
+        if to_min.0 < 0 {
+            return Err(Errno::EINVAL);
+        }
         body.flags = flags;
         process.open_fd_ge(to_min, body).map_err(|_| Errno::EMFILE)
     }
@@ -625,6 +628,10 @@ impl Dup for VirtualSystem {
     fn dup2(&self, from: Fd, to: Fd) -> Result<Fd> {
         let mut process = self.current_process_mut();
         let mut body = process.fds.get(&from).ok_or(Errno::EBADF)?.clone();
+        if from == to {
+            // Nothing happens; the flags of the FD are kept intact.
+            return Ok(to);
+        }
         body.flags = EnumSet::empty();
         process.set_fd(to, body).map_err(|_| Errno::EBADF)?;
         Ok(to)
